@@ -45,24 +45,49 @@ Definition u_fail (x : ustate) (n : N) : ustate :=
 Definition u_done (x : ustate) (s : store) (n : N) : ustate :=
   mkU3 s (fm_set n true (u_status x)) (u_failed x).
 
-(* one iteration of updateReferences: the action is keyed on referenceExists
-   only — neither cmd.Old nor the presence of cmd.New is looked at *)
-Definition g_update1 (x : ustate) (c : cmd) : ustate :=
-  let s := u_store x in
+(* what one iteration of updateReferences does to the store: Some s' when the
+   command is applied, None when it is refused.
+     cur := Reference(name)
+     exists && action != Create && cur.Hash() != cmd.Old        -> refused
+     action != Delete && HasEncodedObject(cmd.New) != nil       -> refused
+     Create: exists -> refused, else SetReference
+     Delete: !exists -> refused, else RemoveReference
+     Update: !exists -> refused, else CheckAndSetReference(new, old) *)
+Definition g_apply (s : store) (c : cmd) : option store :=
   let n := c_name c in
-  let exists_ := fm_has n (s_refs s) in
-  match c_old c, c_new c with
-  | None, None => x
-  | None, Some h =>                          (* Create *)
-    if exists_ then u_fail x n else u_done x (set_ref s n h) n
-  | Some _, None =>                          (* Delete *)
-    if exists_ then u_done x (del_ref s n) n else u_fail x n
-  | Some _, Some h =>                        (* Update *)
-    if exists_ then u_done x (set_ref s n h) n else u_fail x n
-  end.
+  let cur := fm_get n (s_refs s) in
+  let stale := match cur, c_old c with
+               | Some v, Some o => negb (optN_eqb (rv_hash v) (Some o))
+               | _, _ => false
+               end in
+  if stale then None
+  else
+    let missing := match c_new c with Some h => negb (fm_has h (s_objs s)) | None => false end in
+    if missing then None
+    else
+      match c_old c, c_new c with
+      | None, None => None
+      | None, Some h => match cur with Some _ => None | None => Some (set_ref s n h) end
+      | Some _, None => match cur with Some _ => Some (del_ref s n) | None => None end
+      | Some _, Some h => match cur with Some _ => Some (set_ref s n h) | None => None end
+      end.
+
+Definition g_update1 (x : ustate) (c : cmd) : ustate :=
+  if is_invalid c then x
+  else match g_apply (u_store x) c with
+       | Some s' => u_done x s' (c_name c)
+       | None => u_fail x (c_name c)
+       end.
 
 Definition g_update (s : store) (cmds : list cmd) : ustate :=
   fold_left g_update1 cmds (mkU3 s [] false).
+
+(* the request names a reference twice *)
+Fixpoint has_dup (l : list N) : bool :=
+  match l with
+  | [] => false
+  | x :: r => nmem x r || has_dup r
+  end.
 
 Record request := mkReq {
   r_report : bool;                  (* report-status / report-status-v2 negotiated *)
@@ -89,6 +114,7 @@ Definition g_receive (s : store) (r : request) : outcome :=
   | [] => mkOutcome true None None s                 (* flush: nothing to do *)
   | _ =>
     if existsb is_invalid (r_cmds r) then mkOutcome false None None s   (* Decode: malformed command *)
+    else if has_dup (map c_name (r_cmds r)) then mkOutcome false None None s   (* multiple updates for one ref *)
     else
       let need := existsb (fun c => negb (is_delete c)) (r_cmds r) in
       let unpack_ok := negb need || match r_pack r with Some _ => true | None => false end in
